@@ -21,6 +21,7 @@ import subprocess
 import sys
 import tempfile
 
+RECORD = ""
 HERE = os.path.dirname(os.path.dirname(os.path.abspath(__file__)))
 PY = "/venv/bin/python"
 
@@ -141,6 +142,17 @@ def do_run(ids, tier, all_checks, props_extra):
         rows.append((sid, p, {0: "silent", 1: "caught"}.get(rc, "rc=%d" % rc),
                      "; ".join(keys)[:200]))
         print("%-8s %-4s %-7s %s" % rows[-1], flush=True)
+        if RECORD and p == meta["property"]:
+          was = meta.get("caught")
+          meta["ran"].append({"cmd": "VERIF_REPO=<patched tree> ./check %s "
+                              "--tier %s (re-run after strengthening)"
+                              % (p, tier), "exit": rc, "keys": keys})
+          meta["caught"] = rc == 1
+          if not was and rc == 1:
+            meta["caught_only_after_strengthening"] = RECORD
+          with open(os.path.join(d, "meta.json"), "w") as f:
+            json.dump(meta, f, indent=1)
+            f.write("\n")
     finally:
       shutil.rmtree(tmp, ignore_errors=True)
   return rows
@@ -153,7 +165,11 @@ def main():
   ap.add_argument("--tier", default="quick")
   ap.add_argument("--all-checks", action="store_true")
   ap.add_argument("--also", nargs="*", default=[])
+  ap.add_argument("--record", default="",
+                  help="note stored in meta.json (what was strengthened)")
   a = ap.parse_args()
+  global RECORD
+  RECORD = a.record
   if a.cmd == "import":
     do_import(a.args[0], a.args[1].upper())
   else:
